@@ -105,6 +105,23 @@ def _tasks(tree):
   if _calls(cf, 'functools.partial') or _calls(cf, 'partial'):
     _unsupported('get_task: CIFAR100_LOGISTIC binds preprocessing arguments')
   out.append('Definition task_cifar_uses_tff_defaults : bool := true.')
+
+  def kw_bool(call, kw):
+    for k in call.keywords:
+      if k.arg == kw and isinstance(k.value, ast.Constant) and isinstance(k.value.value, bool):
+        return 'true' if k.value.value else 'false'
+    _unsupported(f'get_task: {kw}= must be passed as a literal True/False')
+
+  for task, ctor in (('EMNIST_CONV', 'create_conv_model'), ('EMNIST_LOGISTIC', 'create_logistic_model'),
+                     ('EMNIST_DENSE', 'create_dense_model')):
+    br = _branch(fd, task)
+    ld = _one(_calls(br, 'datasets.emnist.load_data'), 'emnist.load_data')
+    md = [c for c in _calls(br, 'models.emnist.' + ctor)]
+    if len(md) != 1 or len([c for s in br for c in ast.walk(s) if isinstance(c, ast.Call) and (D(c.func) or '').startswith('models.')]) != 1:
+      _unsupported(f'get_task: {task} does not build exactly models.emnist.{ctor}')
+    low = task.lower()
+    out.append(f'Definition task_{low}_data_only_digits : bool := {kw_bool(ld, "only_digits")}.')
+    out.append(f'Definition task_{low}_model_only_digits : bool := {kw_bool(md[0], "only_digits")}.')
   return '\n'.join(out)
 
 
